@@ -128,6 +128,12 @@ def programs(tier: str):
                         inner_b["disp"] = [{"enter": "ok", "exit": "ok", "yields": "none"}]
                         inner_b["spawns"] = []
                     yield {"block": {"kind": hk, "supply": ["N"], "pause": True, "ending": "return", "child": inner_b}, "outer": True, "cancels": 0}
+    # a disposable whose exit returns True ("handled")
+    for ending in ENDINGS:
+        for n in (1, 2):
+            disp = [{"enter": "ok", "exit": "ok", "yields": "none", "handles": True}] + ([{"enter": "ok", "exit": "ok", "yields": "none"}] if n == 2 else [])
+            for outer in (False, True):
+                yield {"block": {"kind": "ascope", "supply": ["A"], "disp": disp, "spawns": [], "pause": True, "ending": ending}, "outer": outer, "cancels": 0}
     # the cancellation injected between two loop iterations
     for b in singles:
         if b["kind"] == "ascope" and len(b.get("disp", [])) <= 1:
